@@ -20,6 +20,7 @@ fn messages() -> Vec<Vec<u8>> {
         b"x".to_vec(),
         vec![b'm'; 512],
         vec![b'L'; 70000],
+        (0..5000).map(|i| b'a' + (i % 26) as u8).collect(),
         b"bad \xff\xfe utf8".to_vec(),
         b"#HY000 looks like a state".to_vec(),
         b"nul\0inside".to_vec(),
@@ -276,16 +277,16 @@ pub fn build(quick: bool) -> Check {
     Check {
         id: "C13",
         level: "model_checking",
-        rule: format!("every ErrorKind variant of the tree under test ({} variants, list regenerated by build.rs) x 12 reporting sites (init via COM_INIT_DB and USE, prepare, query error fresh / after complete_one / after finish_one, finish_error after 0 rows / rows / a complete unended row in text mode, binary finish_error after 0 rows / rows, binary error after finish_one) x message classes (empty, 1 byte, 512 bytes, 70000 bytes in thorough, invalid UTF-8, leading '#', embedded NUL, leading 0xFF), each followed by a sentinel PING; every 97th (thorough: every) kind x all sites x 3 messages again for clients that answered the greeting with the pre-4.1 layout, with CLIENT_PROTOCOL_41 alone, and with libmysqlclient's full set (db, plugin, attributes). Oracle: the decoded ERR carries (kind as u16, kind.sqlstate(), message bytes) and mysql_common reads the same; per variant: code <-> kind both ways, (name, code, SQLSTATE) equal the pinned golden table, codes equal the mysql client crate's independent table, 46 documented (code, SQLSTATE) anchors.", KINDS.len()),
+        rule: format!("every ErrorKind variant of the tree under test ({} variants, list regenerated by build.rs) x 12 reporting sites (init via COM_INIT_DB and USE, prepare, query error fresh / after complete_one / after finish_one, finish_error after 0 rows / rows / a complete unended row in text mode, binary finish_error after 0 rows / rows, binary error after finish_one) x message classes (empty, 1 byte, 512 bytes, 5000 bytes, 70000 bytes in thorough, invalid UTF-8, leading '#', embedded NUL, leading 0xFF), each followed by a sentinel PING; every 97th (thorough: every) kind x all sites x 5 messages (up to 70000 bytes, beyond the max_packet_size these clients announce) again for clients that answered the greeting with the pre-4.1 layout, with CLIENT_PROTOCOL_41 alone, and with libmysqlclient's full set (db, plugin, attributes). Oracle: the decoded ERR carries (kind as u16, kind.sqlstate(), message bytes) and mysql_common reads the same; per variant: code <-> kind both ways, (name, code, SQLSTATE) equal the pinned golden table, codes equal the mysql client crate's independent table, 46 documented (code, SQLSTATE) anchors.", KINDS.len()),
         assumptions: vec![
             "trusted base for SQLSTATEs beyond the 46 anchors: the table pinned in /verif/data equals MariaDB's published one (as the generator comment in errorcodes.rs states); variants added later are checked for self-consistency only".into(),
         ],
-        bounds: json!({"kinds": KINDS.len(), "sites": 12, "messages": if quick {7} else {8}}),
+        bounds: json!({"kinds": KINDS.len(), "sites": 12, "messages": if quick {8} else {9}}),
         exhaustive: true,
         caps_hit: vec![],
         families: vec![
             Box::new(Sites { msgs }),
-            Box::new(Handshakes { kinds: (0..KINDS.len()).step_by(if quick { 97 } else { 1 }).collect(), msgs: vec![vec![], b"denied #1".to_vec(), vec![b'm'; 600]] }),
+            Box::new(Handshakes { kinds: (0..KINDS.len()).step_by(if quick { 97 } else { 1 }).collect(), msgs: vec![vec![], b"denied #1".to_vec(), vec![b'm'; 600], (0..5000).map(|i| b'A' + (i % 26) as u8).collect(), vec![b'z'; 70_000]] }),
             Box::new(Tables),
             Box::new(super::aftermath::Aftermath { prop: "C13" }),
         ],
